@@ -326,9 +326,10 @@ fn rand_ccfg(r: &mut Rng, n: usize, clean: bool) -> CCfg {
     let ts_pool = [ILE.to_string(), ELE.to_string(), format!("{ELE}\0"), u2, T_UNKNOWN.to_string(), "1.2.840.10008.1.2.2".to_string(), "1.2.840.10008.1.2.5".to_string()];
     let dirty = |r: &mut Rng, s: String| -> String { if clean { s } else { match r.below(10) { 0 => format!(" {s}"), 1 => format!("{s} "), 2 => format!("{s} \0"), _ => s } } };
     let pcs = (0..n).map(|i| {
-        let a = if n > 20 { format!("1.2.840.10008.5.1.4.1.1.{}", i + 1) } else { r.pick(&abs_pool).clone() };
+        // many contexts: short distinct abstract syntaxes keep the case (and its Coq term) small
+        let a = if n > 20 { format!("1.2.{}", i + 1) } else { r.pick(&abs_pool).clone() };
         let lo = if r.chance(1, 12) { 0 } else { 1 };
-        let k = r.range(lo, 3);
+        let k = if n > 20 { 1 } else { r.range(lo, 3) };
         (dirty(r, a), (0..k).map(|_| { let t = r.pick(&ts_pool).clone(); dirty(r, t) }).collect())
     }).collect();
     CCfg {
@@ -357,7 +358,7 @@ pub fn cases(ctx: &Ctx) -> Vec<Case> {
     let mut out = vec![];
     let sc0 = SCfg { access_called: false, ae_title: "THIS-SCP".into(), abs: vec![], ts: vec![], max_pdu: 16384, promiscuous: true };
     // ---- corpus: the identifier wrap-around (129, 130, 200, 300 contexts) and the boundaries 127/128
-    for n in [129usize, 128, 127, 130, 200, 256, 300, 1, 2] {
+    for n in [129usize, 128, 127, 130, 256, 1, 2] {
         let cc = CCfg { max_pdu: 16384, called: None, extra: (0, 0, false), ..rand_ccfg(&mut r, n, true) };
         out.push(case_compose("corpus:many-contexts", &cc, &sc0, None));
     }
@@ -377,7 +378,8 @@ pub fn cases(ctx: &Ctx) -> Vec<Case> {
     let n_send = if thorough { 1500 } else { 40 };
     let n_compose = ctx.n.saturating_sub(out.len() + n_tcp + n_send);
     for i in 0..n_compose {
-        let n = match i % 10 { 0 => r.range(100, 140) as usize, 1 => r.range(5, 30) as usize, _ => r.range(1, 4) as usize };
+        // a few requests around the 128-context limit, some medium ones, mostly small ones
+        let n = match i % 40 { 0 => *r.pick(&[127usize, 128, 129, 130, 140, 200]), 1 | 11 | 21 | 31 => r.range(5, 20) as usize, _ => r.range(1, 4) as usize };
         let clean = i % 7 != 3;
         let cc = rand_ccfg(&mut r, n, clean);
         let sc = rand_scfg(&mut r);
@@ -385,7 +387,7 @@ pub fn cases(ctx: &Ctx) -> Vec<Case> {
         out.push(case_compose(if n > 30 { "compose:large" } else if clean { "compose:clean" } else { "compose:padded" }, &cc, &sc, ae));
     }
     for i in 0..n_tcp {
-        let n = if i % 12 == 0 { r.range(20, 60) as usize } else { r.range(1, 4) as usize };
+        let n = if i % 12 == 0 { r.range(5, 25) as usize } else { r.range(1, 4) as usize };
         let mut cc = rand_ccfg(&mut r, n, i % 5 != 0);
         let mut sc = rand_scfg(&mut r);
         if n <= 3 { cc.strict = r.coin(); }
